@@ -37,6 +37,26 @@ var (
 // these match a file, the first matching path will be returned. If no files are
 // found, an error will be returned.
 func RemoteExists(ctx context.Context, u *url.URL) (*url.URL, error) {
+	return remoteExists(ctx, u, http.DefaultClient)
+}
+
+// secureClient returns the HTTP client remote Taskfiles are fetched with: unless
+// plain http is allowed, it refuses to follow a redirect that leaves https.
+func secureClient(insecure bool) *http.Client {
+	return &http.Client{
+		CheckRedirect: func(req *http.Request, via []*http.Request) error {
+			if !insecure && req.URL.Scheme == "http" {
+				return &errors.TaskfileNotSecureError{URI: req.URL.String()}
+			}
+			if len(via) >= 10 {
+				return fmt.Errorf("stopped after 10 redirects")
+			}
+			return nil
+		},
+	}
+}
+
+func remoteExists(ctx context.Context, u *url.URL, client *http.Client) (*url.URL, error) {
 	// Create a new HEAD request for the given URL to check if the resource exists
 	req, err := http.NewRequestWithContext(ctx, "HEAD", u.String(), nil)
 	if err != nil {
@@ -44,10 +64,14 @@ func RemoteExists(ctx context.Context, u *url.URL) (*url.URL, error) {
 	}
 
 	// Request the given URL
-	resp, err := http.DefaultClient.Do(req)
+	resp, err := client.Do(req)
 	if err != nil {
 		if ctx.Err() != nil {
 			return nil, fmt.Errorf("checking remote file: %w", ctx.Err())
+		}
+		var notSecure *errors.TaskfileNotSecureError
+		if errors.As(err, &notSecure) {
+			return nil, notSecure
 		}
 		return nil, errors.TaskfileFetchFailedError{URI: u.String()}
 	}
@@ -76,8 +100,12 @@ func RemoteExists(ctx context.Context, u *url.URL) (*url.URL, error) {
 		req.URL = alt
 
 		// Try the alternative URL
-		resp, err = http.DefaultClient.Do(req)
+		resp, err = client.Do(req)
 		if err != nil {
+			var notSecure *errors.TaskfileNotSecureError
+			if errors.As(err, &notSecure) {
+				return nil, notSecure
+			}
 			return nil, errors.TaskfileFetchFailedError{URI: u.String()}
 		}
 		defer resp.Body.Close()
